@@ -92,6 +92,11 @@ def c04_cases():
         return 1.0 if status[node] == 'I' else 0.0
     out.append(('Gillespie_complex_contagion', 'SIR', 1.5, 6.0, False, lambda: EoN.Gillespie_complex_contagion(
         G, rate_fn, lambda G_, n, s, p: 'I' if s[n] == 'S' else 'R', lambda G_, n, s, p: list(G_.neighbors(n)), IC, ['S', 'I', 'R'], tmin=1.5, tmax=6.0)))
+    star = nx.star_graph(5)
+    out.append(('discrete_SIR on a star with recovered leaves', 'SIR', 0, inf, True,
+                lambda: EoN.discrete_SIR(star, test_transmission=lambda u, v: True, initial_infecteds=[0], initial_recovereds=[1, 2, 3, 4, 5])))
+    out.append(('basic_discrete_SIR on a path with a recovered barrier', 'SIR', 0, inf, True,
+                lambda: EoN.basic_discrete_SIR(nx.path_graph(5), 1.0, initial_infecteds=[0], initial_recovereds=[2])))
     for tmin, tmax in ((0, inf), (3, 5)):
         out += [
             ('discrete_SIR', 'SIR', tmin, tmax, True, lambda tmin=tmin, tmax=tmax: EoN.discrete_SIR(G, args=(0.6,), initial_infecteds=[0], initial_recovereds=[3], tmin=tmin, tmax=tmax)),
@@ -113,7 +118,8 @@ def c04_native(seeds=(1, 2, 3, 4)):
                 arrs = f()
             except Exception as e:
                 return n, dict(simulator=name, tmin=tmin, tmax=tmax, seed=seed, observed='%s: %s' % (type(e).__name__, e))
-            why = check_rows(arrs, N, tmin, tmax, kind, discrete)
+            Nn = sum(int(a[0]) for a in arrs[1:])
+            why = check_rows(arrs, Nn if ' on a ' in name else N, tmin, tmax, kind, discrete)
             if why is None and kind == 'SIR' and not discrete and not math.isfinite(tmax) and 'gamma=0' not in name and int(arrs[2][-1]) != 0:
                 why = 'unbounded horizon but the run ends with %d infected nodes' % int(arrs[2][-1])
             if why:
@@ -190,6 +196,30 @@ def c05_native():
                     pass
                 except Exception as e:
                     return n, dict(simulator=name, initial_infecteds=str(ii), rho=rho, observed='%s instead of EoNError: %s' % (type(e).__name__, e))
+    # initially recovered nodes are never infected later: deterministic limits, PLAIN return mode
+    for Gx, seeds_, rec_ in ((G, [0], [1, 3]), (nx.star_graph(5), [0], [1, 2, 3, 4, 5]), (nx.path_graph(5), [0], [2])):
+        Gm = Gx.copy(); Gm.remove_nodes_from(rec_)
+        comp = set()
+        for s_ in seeds_:
+            comp |= nx.node_connected_component(Gm, s_)
+        Nx = Gx.order()
+        runs = {'discrete_SIR(always)': lambda: EoN.discrete_SIR(Gx, test_transmission=lambda u, v: True, initial_infecteds=seeds_, initial_recovereds=rec_),
+                'basic_discrete_SIR(p=1)': lambda: EoN.basic_discrete_SIR(Gx, 1.0, initial_infecteds=seeds_, initial_recovereds=rec_),
+                'percolation_based_discrete_SIR(p=1)': lambda: EoN.percolation_based_discrete_SIR(Gx, 1.0, initial_infecteds=seeds_, initial_recovereds=rec_),
+                'fast_SIR(gamma=0)': lambda: EoN.fast_SIR(Gx, 1.0, 0.0, initial_infecteds=seeds_, initial_recovereds=rec_),
+                'Gillespie_SIR(gamma=0)': lambda: EoN.Gillespie_SIR(Gx, 1.0, 0.0, initial_infecteds=seeds_, initial_recovereds=rec_, tmax=200)}
+        for name, f in runs.items():
+            n += 1
+            random.seed(11); np.random.seed(11)
+            try:
+                arrs = f()
+            except Exception as e:
+                return n, dict(simulator=name, edges=list(Gx.edges()), initial_infecteds=seeds_, initial_recovereds=rec_, observed='%s: %s' % (type(e).__name__, e))
+            S_end, ever = int(arrs[1][-1]), int(arrs[2][-1]) + int(arrs[3][-1]) - len(rec_)
+            if S_end != Nx - len(comp) - len(rec_) or ever != len(comp) or min(int(x) for x in arrs[1]) < 0:
+                return n, dict(simulator=name, edges=list(Gx.edges()), initial_infecteds=seeds_, initial_recovereds=rec_,
+                               observed='final S=%d, ever infected=%d; only the %d nodes reachable without crossing a recovered node can be infected (S must end at %d)' % (
+                                   S_end, ever, len(comp), Nx - len(comp) - len(rec_)), arrays=[[float(x) for x in a][:10] for a in arrs])
     # wrappers start the same epidemic as the general function
     for seed in (1, 2):
         n += 1
